@@ -575,6 +575,12 @@ func (e *Engine) appendSlices(st *State, fr *Frame, s, add *SliceVal) Value {
 		}
 		return ns
 	}
+	if s.reg != nil && !s.reg.fresh && !fits.IsConst() {
+		// append to a slice this activation did not allocate: with spare capacity it writes into the caller's
+		// backing array behind len(s).  That store is outside every frame, so it is an obligation that it cannot
+		// happen (the capacity is exhausted); the engine has no model of the bytes behind len(s) to continue with.
+		e.addObligation(st, fr, "frame", "append:"+s.reg.name, mkNot(fits), "append to a slice the function did not allocate must not write into the spare capacity of the caller's backing array (cap == len is not known here)")
+	}
 	e.fail("append with symbolic capacity relation in %s (len=%s add=%s cap=%s)", fr.fn, s.length.Key(), add.length.Key(), s.capacity.Key())
 	return nil
 }
